@@ -249,7 +249,7 @@ func (g *fnGen) eval(e SExpr, env *evalEnv) (string, types.Type, error) {
 		if _, isIface := ty.Underlying().(*types.Interface); isIface {
 			return xv, ty, nil
 		}
-		return g.R.unbox(g.R.sortOf(ty), S("i-val", xv)), ty, nil
+		return g.R.unboxT(ty, S("i-val", xv)), ty, nil
 	case *SCall:
 		return g.evalCall(x, env)
 	case *STypeExpr:
@@ -342,6 +342,13 @@ func (g *fnGen) evalIdent(name string, env *evalEnv) (string, types.Type, error)
 		}
 		if pv, ok := g.paramVals[name]; ok {
 			return pv, g.paramTypes[name], nil
+		}
+		// captured variable of a closure: a pointer to the enclosing function's local
+		for _, fv := range g.fn.FreeVars {
+			if fv.Name() == name {
+				pt := deref(fv.Type())
+				return g.loadAt(env.cur, pt, g.vals[fv]), pt, nil
+			}
 		}
 	}
 	// package level
@@ -552,11 +559,11 @@ func (g *fnGen) evalBin(x *SBin, env *evalEnv) (string, types.Type, error) {
 			// interface vs concrete value: box the concrete side
 			if _, ai := ta.Underlying().(*types.Interface); ai {
 				if _, bi := tb.Underlying().(*types.Interface); !bi {
-					b = S("mk-iface", fmt.Sprint(g.R.tagOf(tb)), g.R.box(g.R.sortOf(tb), b))
+					b = S("mk-iface", fmt.Sprint(g.R.tagOf(tb)), g.R.boxT(tb, b))
 					tb = ta
 				}
 			} else if _, bi := tb.Underlying().(*types.Interface); bi {
-				a = S("mk-iface", fmt.Sprint(g.R.tagOf(ta)), g.R.box(g.R.sortOf(ta), a))
+				a = S("mk-iface", fmt.Sprint(g.R.tagOf(ta)), g.R.boxT(ta, a))
 				ta = tb
 			}
 			if g.sortOfSpec(ta) != g.sortOfSpec(tb) {
@@ -666,6 +673,21 @@ func (g *fnGen) evalCall(x *SCall, env *evalEnv) (string, types.Type, error) {
 			ne.mode = "pre"
 		}
 		return g.eval(x.Args[0], &ne)
+	case "atlock":
+		// atlock(e): e in the state right after the most recent lock acquisition
+		if err := argn(1); err != nil {
+			return "", nil, err
+		}
+		ne := *env
+		if env.cur.lockSnap != nil {
+			ne.cur = env.cur.lockSnap
+		} else {
+			ne.cur = env.old
+		}
+		if ne.mode == "post" {
+			ne.mode = "pre"
+		}
+		return g.eval(x.Args[0], &ne)
 	case "cur":
 		// cur(e): e evaluated over the current values of locals (in postconditions plain names are entry values)
 		if err := argn(1); err != nil {
@@ -682,7 +704,10 @@ func (g *fnGen) evalCall(x *SCall, env *evalEnv) (string, types.Type, error) {
 		if err != nil {
 			return "", nil, err
 		}
-		if _, ok := t.Underlying().(*types.Slice); !ok {
+		if _, isIface := t.Underlying().(*types.Interface); isIface {
+			// an interface holding a slice (e.g. the `x any` of sort.Slice): unbox the slice header
+			v = g.R.unboxT(types.NewSlice(types.Typ[types.Uint8]), S("i-val", v))
+		} else if _, ok := t.Underlying().(*types.Slice); !ok {
 			return "", nil, fmt.Errorf("%s: not a slice", id.Name)
 		}
 		if id.Name == "sbase" {
@@ -823,7 +848,8 @@ func (g *fnGen) evalCall(x *SCall, env *evalEnv) (string, types.Type, error) {
 		if id.Name == "haskey" {
 			return And(Not(S("=", m, "0")), S("select", dom, k)), tBool_, nil
 		}
-		return S("select", val, k), mm.Elem(), nil
+		// Go semantics: the zero value when the key is absent
+		return S("ite", And(Not(S("=", m, "0")), S("select", dom, k)), S("select", val, k), g.R.zero(mm.Elem())), mm.Elem(), nil
 	case "mapdom", "mapvals":
 		if err := argn(1); err != nil {
 			return "", nil, err
@@ -1225,7 +1251,7 @@ func (g *fnGen) coerceTo(v string, from, to types.Type) (string, types.Type) {
 	if _, toI := to.Underlying().(*types.Interface); toI {
 		if _, fromI := from.Underlying().(*types.Interface); !fromI {
 			if _, isMM := from.(*MathMap); !isMM {
-				return S("mk-iface", fmt.Sprint(g.R.tagOf(from)), g.R.box(g.R.sortOf(from), v)), to
+				return S("mk-iface", fmt.Sprint(g.R.tagOf(from)), g.R.boxT(from, v)), to
 			}
 		}
 		return v, to
